@@ -207,6 +207,7 @@ class Circuit:
                 "Add method only supported for Circuit or Unitary objects."
             )
         # Remap mode
+        user_mode = mode
         mode = self._map_mode(mode)
         self._mode_in_range(mode)
         # Make copy of circuit to avoid modification
@@ -231,7 +232,8 @@ class Circuit:
         spec = circuit.__circuit_spec
         # Check circuit size is valid
         n_heralds = len(circuit.heralds["input"])
-        if mode + circuit.n_modes - n_heralds > self.n_modes:
+        n_user_modes = self.n_modes - len(self.__internal_modes)
+        if user_mode + circuit.n_modes - n_heralds > n_user_modes:
             raise ModeRangeError("Circuit to add is outside of mode range")
 
         # Include any existing internal modes into the circuit to be added
